@@ -309,6 +309,49 @@ func cmdCostCheck(args []string) int {
 			prev = dur
 		}
 	}
+	// (3) single huge tokens (text, attribute value, comment, tag soup without '>'): every entry point must return
+	hugeRecipe := Recipe{{M: "UGCPolicy"}, {M: "AllowComments"}}
+	for i := range hugeRecipe {
+		hugeRecipe[i].norm()
+	}
+	ph := BuildReal(hugeRecipe)
+	size := 3 << 19 // 1.5 MiB
+	huge := map[string]string{
+		"huge-text":    strings.Repeat("x", size),
+		"huge-attr":    `<a href="http://e.com/` + strings.Repeat("y", size) + `">l</a>`,
+		"huge-comment": "<!--" + strings.Repeat("c", size) + "-->",
+		"huge-tag":     "<b " + strings.Repeat("a ", size/2),
+		"huge-entity":  strings.Repeat("&amp;", size/5),
+	}
+	hnames := []string{}
+	for k := range huge {
+		hnames = append(hnames, k)
+	}
+	sort.Strings(hnames)
+	for _, name := range hnames {
+		input := huge[name]
+		done := make(chan string, 1)
+		go func() {
+			defer func() {
+				if e := recover(); e != nil {
+					done <- fmt.Sprint(e)
+				}
+			}()
+			ph.Sanitize(input)
+			ph.SanitizeReader(strings.NewReader(input))
+			done <- ""
+		}()
+		res.Execs++
+		res.Applicable["C14"]++
+		select {
+		case pm := <-done:
+			if pm != "" {
+				add("panic:"+name, fmt.Sprintf("Sanitize panicked on a %d-byte input (%s): %s", len(input), name, pm), CostReplayFile{Kind: "input", Recipe: hugeRecipe, Input: name})
+			}
+		case <-time.After(60 * time.Second):
+			add("no-return:"+name, fmt.Sprintf("Sanitize did not return within 60 s on a %d-byte input consisting of one huge token (%s)", len(input), name), CostReplayFile{Kind: "input", Recipe: hugeRecipe, Input: name})
+		}
+	}
 	_ = rng
 	res.Cases = res.Execs
 	res.Nontrivial = families + len(names)
